@@ -53,7 +53,7 @@ PROPS = {
         "case_type": "c12_case",
         "check": "c12_check",
         "mismatch_is_violation": True,
-        "theories": ["theories/Base.v", "theories/Nonce.v", "theories/Store.v", "theories/StoreProofs.v"],
+        "theories": ["theories/Base.v", "theories/Nonce.v", "theories/Store.v", "theories/StoreProofs.v", "gen/Facts.v"],
         "check_theories": ["theories/Check12.v"],
         "level_text": "The documented Store contract is an executable Gallina model (coq/theories/Store.v); Coq theorems "
                       "state, for every reachable state and operation, the contract facts the property names "
